@@ -7,7 +7,8 @@
 (*      characters: SP, VCHAR and obs-text 0x80-0xFF, i.e. latin-1 without C0 controls and   *)
 (*      DEL), per header family a token alphabet rich in separators, quotes, '=', '*', '%',  *)
 (*      RFC 2231 markers, base64, dates, digits, brackets and high-bit bytes, the families'  *)
-(*      token sequences (enumerated by TLC in MCHostile), single-character sweeps in         *)
+(*      token sequences (enumerated by TLC in MCHostile), grammar-generated number / instant *)
+(*      neighbourhoods (GramTexts), single-character sweeps in                               *)
 (*      contexts and pumped (long repetition) inputs; and which functions / environ slots    *)
 (*      each family is fed to;                                                               *)
 (*  (b) the OUTCOME CONTRACT: per function and per position (position 1 = the call, further  *)
@@ -21,7 +22,7 @@ EXTENDS Naturals, Sequences, FiniteSets, TLC, Bytes
 DomainChars == (32..126) \cup (128..255)
 InDomain(s) == \A i \in 1..Len(s) : s[i] \in DomainChars
 
-Families == <<"options", "ctype", "cond", "auth", "cookie", "url">>
+Families == <<"options", "ctype", "cond", "auth", "cookie", "url", "range", "date">>
 
 Tok_options == <<
   <<97>>,   \*  1  a
@@ -259,10 +260,91 @@ Ctx_url == <<
   <<<<97, 46>>, <<46, 98>>>>    \* a. _ .b
 >>
 
+Tok_range == <<
+  <<98, 121, 116, 101, 115, 61>>,   \*  1  bytes=
+  <<98, 121, 116, 101, 115, 32>>,   \*  2  bytesSP
+  <<45>>,   \*  3  -
+  <<44>>,   \*  4  ,
+  <<47>>,   \*  5  /
+  <<42>>,   \*  6  *
+  <<48>>,   \*  7  0
+  <<49>>,   \*  8  1
+  <<52>>,   \*  9  4
+  <<53>>,   \* 10  5
+  <<57>>,   \* 11  9
+  <<49, 48>>,   \* 12  10
+  <<32>>,   \* 13  SP
+  <<105, 116, 101, 109, 115, 61>>,   \* 14  items=
+  <<45, 45>>,   \* 15  --
+  <<48, 48>>,   \* 16  00
+  <<178>>    \* 17  \xB2
+>>
+Ctx_range == <<
+  <<<<>>, <<>>>>,   \*  _ 
+  <<<<98, 121, 116, 101, 115, 61>>, <<45>>>>,   \* bytes= _ -
+  <<<<98, 121, 116, 101, 115, 61, 48, 45>>, <<>>>>,   \* bytes=0- _ 
+  <<<<98, 121, 116, 101, 115, 61, 45>>, <<>>>>,   \* bytes=- _ 
+  <<<<98, 121, 116, 101, 115, 32, 48, 45, 49, 47>>, <<>>>>,   \* bytesSP0-1/ _ 
+  <<<<98, 121, 116, 101, 115, 32, 48, 45>>, <<47, 50>>>>,   \* bytesSP0- _ /2
+  <<<<98, 121, 116, 101, 115, 61, 48, 45, 49, 44>>, <<45, 51>>>>    \* bytes=0-1, _ -3
+>>
+
+Tok_date == <<
+  <<77, 111, 110, 44, 32>>,   \*  1  Mon,SP
+  <<48, 49, 32>>,   \*  2  01SP
+  <<51, 49, 32>>,   \*  3  31SP
+  <<74, 97, 110, 32>>,   \*  4  JanSP
+  <<68, 101, 99, 32>>,   \*  5  DecSP
+  <<48, 48, 48, 49, 32>>,   \*  6  0001SP
+  <<57, 57, 57, 57, 32>>,   \*  7  9999SP
+  <<50, 48, 50, 52, 32>>,   \*  8  2024SP
+  <<48, 48, 58, 48, 48, 58, 48, 48>>,   \*  9  00:00:00
+  <<50, 51, 58, 53, 57, 58, 53, 57>>,   \* 10  23:59:59
+  <<32, 43, 48, 48, 48, 49>>,   \* 11  SP+0001
+  <<32, 45, 48, 48, 48, 49>>,   \* 12  SP-0001
+  <<32, 71, 77, 84>>,   \* 13  SPGMT
+  <<32, 69, 83, 84>>,   \* 14  SPEST
+  <<50, 52, 58, 48, 48, 58, 48, 48>>,   \* 15  24:00:00
+  <<50, 51, 58, 53, 57, 58, 54, 48>>,   \* 16  23:59:60
+  <<49, 48, 48, 48, 48, 32>>,   \* 17  10000SP
+  <<48, 48, 48, 48, 32>>,   \* 18  0000SP
+  <<32, 43, 50, 51, 53, 57>>,   \* 19  SP+2359
+  <<32, 45, 50, 51, 53, 57>>,   \* 20  SP-2359
+  <<32, 90>>,   \* 21  SPZ
+  <<32, 85, 84>>,   \* 22  SPUT
+  <<32, 80, 83, 84>>,   \* 23  SPPST
+  <<48, 48, 32>>,   \* 24  00SP
+  <<70, 101, 98, 32>>    \* 25  FebSP
+>>
+Ctx_date == <<
+  <<<<>>, <<>>>>,   \*  _ 
+  <<<<77, 111, 110, 44, 32, 48, 49, 32, 74, 97, 110, 32, 50, 48, 50, 52, 32, 48, 48, 58, 48, 48, 58, 48>>, <<32, 71, 77, 84>>>>,   \* Mon,SP01SPJanSP2024SP00:00:0 _ SPGMT
+  <<<<77, 111, 110, 44, 32, 48, 49, 32, 74, 97, 110, 32, 50, 48, 50, 52, 32, 48, 48, 58, 48, 48, 58, 48, 48, 32>>, <<>>>>,   \* Mon,SP01SPJanSP2024SP00:00:00SP _ 
+  <<<<77, 111, 110, 44, 32, 48, 49, 32, 74, 97, 110, 32, 48, 48, 48>>, <<32, 48, 48, 58, 48, 48, 58, 48, 48, 32, 43, 48, 48, 48, 49>>>>,   \* Mon,SP01SPJanSP000 _ SP00:00:00SP+0001
+  <<<<77, 111, 110, 44, 32, 51, 49, 32, 68, 101, 99, 32, 57, 57, 57>>, <<32, 50, 51, 58, 53, 57, 58, 53, 57, 32, 45, 48, 48, 48, 49>>>>,   \* Mon,SP31SPDecSP999 _ SP23:59:59SP-0001
+  <<<<77, 111, 110, 44, 32, 48, 49, 32, 74, 97, 110, 32, 50, 48, 50, 52, 32, 48, 48, 58, 48, 48, 58, 48, 48, 32, 43, 48, 48, 48>>, <<>>>>    \* Mon,SP01SPJanSP2024SP00:00:00SP+000 _ 
+>>
+
+T_bytesEq == <<98, 121, 116, 101, 115, 61>>   \* bytes=
+T_bytesSp == <<98, 121, 116, 101, 115, 32>>   \* bytesSP
+T_dash == <<45>>   \* -
+T_comma == <<44>>   \* ,
+T_slash == <<47>>   \* /
+T_star == <<42>>   \* *
+T_wkday == <<77, 111, 110, 44, 32>>   \* Mon,SP
+T_sp == <<32>>   \* SP
+DateYears == {<<48, 48, 48, 48>>, <<48, 48, 48, 49>>, <<48, 48, 48, 50>>, <<49, 57, 54, 57>>, <<49, 57, 55, 48>>, <<50, 48, 50, 52>>, <<57, 57, 57, 56>>, <<57, 57, 57, 57>>, <<49, 48, 48, 48, 48>>, <<48, 48>>, <<54, 57>>, <<57, 57>>}   \* 0000 | 0001 | 0002 | 1969 | 1970 | 2024 | 9998 | 9999 | 10000 | 00 | 69 | 99
+DateEdges == {<<<<48, 49, 32, 74, 97, 110>>, <<48, 48, 58, 48, 48, 58, 48, 48>>>>, <<<<51, 49, 32, 68, 101, 99>>, <<50, 51, 58, 53, 57, 58, 53, 57>>>>}   \* first / last second of the year
+DateOddDays == {<<48, 48, 32, 74, 97, 110>>, <<51, 50, 32, 74, 97, 110>>, <<50, 57, 32, 70, 101, 98>>, <<51, 48, 32, 70, 101, 98>>, <<51, 49, 32, 65, 112, 114>>, <<48, 49, 32, 70, 111, 111>>, <<49, 32, 74, 97, 110>>, <<48, 48, 32, 48, 48>>}   \* 00SPJan | 32SPJan | 29SPFeb | 30SPFeb | 31SPApr | 01SPFoo | 1SPJan | 00SP00
+DateOddTimes == {<<50, 52, 58, 48, 48, 58, 48, 48>>, <<50, 51, 58, 53, 57, 58, 54, 48>>, <<50, 51, 58, 54, 48, 58, 48, 48>>, <<48, 48, 58, 48, 48>>, <<48, 48, 58, 48, 48, 58, 48, 48, 46, 53>>, <<57, 57, 58, 57, 57, 58, 57, 57>>, <<45, 49, 58, 48, 48, 58, 48, 48>>, <<48, 48, 58, 48, 48, 58, 45, 49>>}   \* 24:00:00 | 23:59:60 | 23:60:00 | 00:00 | 00:00:00.5 | 99:99:99 | -1:00:00 | 00:00:-1
+DateZones == {<<>>, <<32, 71, 77, 84>>, <<32, 85, 84>>, <<32, 90>>, <<32, 69, 83, 84>>, <<32, 69, 68, 84>>, <<32, 80, 83, 84>>, <<32, 65>>, <<32, 43, 48, 48, 48, 48>>, <<32, 45, 48, 48, 48, 48>>, <<32, 43, 48, 48, 48, 49>>, <<32, 45, 48, 48, 48, 49>>, <<32, 43, 49, 52, 48, 48>>, <<32, 45, 49, 50, 48, 48>>, <<32, 43, 50, 51, 53, 57>>, <<32, 45, 50, 51, 53, 57>>, <<32, 43, 50, 52, 48, 48>>, <<32, 45, 50, 52, 48, 48>>, <<32, 43, 57, 57, 53, 57>>, <<32, 48, 48, 48, 48>>, <<32, 43, 48, 48, 58, 48, 49>>}   \* (empty) | SPGMT | SPUT | SPZ | SPEST | SPEDT | SPPST | SPA | SP+0000 | SP-0000 | SP+0001 | SP-0001 | SP+1400 | SP-1200 | SP+2359 | SP-2359 | SP+2400 | SP-2400 | SP+9959 | SP0000 | SP+00:01
+
 Toks(fam) == CASE fam = "options" -> Tok_options [] fam = "ctype" -> Tok_ctype [] fam = "cond" -> Tok_cond
                [] fam = "auth" -> Tok_auth [] fam = "cookie" -> Tok_cookie [] fam = "url" -> Tok_url
+               [] fam = "range" -> Tok_range [] fam = "date" -> Tok_date
 Ctxs(fam) == CASE fam = "options" -> Ctx_options [] fam = "ctype" -> Ctx_ctype [] fam = "cond" -> Ctx_cond
                [] fam = "auth" -> Ctx_auth [] fam = "cookie" -> Ctx_cookie [] fam = "url" -> Ctx_url
+               [] fam = "range" -> Ctx_range [] fam = "date" -> Ctx_date
 
 \* text of a sequence of token indices
 RECURSIVE TextOf(_, _)
@@ -277,6 +359,50 @@ Rep(tok, m) == IF m = 0 THEN <<>> ELSE IF m = 1 THEN tok
                ELSE LET h == Rep(tok, m \div 2) IN IF m % 2 = 0 THEN h \o h ELSE h \o h \o tok
 PumpText(fam, k, j, n) == LET tok == Toks(fam)[j] IN Ctxs(fam)[k][1] \o Rep(tok, n \div Len(tok)) \o Ctxs(fam)[k][2]
 
+(* ---- numeric / instant grammars ----------------------------------------------------------- *)
+(* Token sequences rarely put two numbers next to each other in a *chosen relation*.  For the   *)
+(* families whose grammar has numeric positions the texts below are generated from the grammar: *)
+(* every numeric position takes, relative to its left neighbour n, the values n-1, n, n+1 (and  *)
+(* absent), so that decreasing, equal and adjacent pairs all occur; plus very long digit runs.  *)
+RECURSIVE Dig(_)
+Dig(n) == IF n < 10 THEN <<48 + n>> ELSE Dig(n \div 10) \o <<48 + (n % 10)>>
+Near(n) == (IF n > 0 THEN {n - 1} ELSE {}) \cup {n, n + 1}
+RangeBases == {0, 1, 5, 10}
+LongRuns == {Rep(<<57>>, 20), Rep(<<57>>, 5000), <<49>> \o Rep(<<48>>, 400)}
+
+\* one range-spec: first-last with last around first, open ended, suffix, and a doubled dash
+RangeSpecs == UNION {{Dig(a) \o T_dash \o Dig(b) : b \in Near(a)} : a \in RangeBases}
+         \cup {Dig(a) \o T_dash : a \in RangeBases \cup {9}}
+         \cup {T_dash \o Dig(n) : n \in {0, 1, 5}}
+         \cup {Dig(a) \o T_dash \o T_dash \o Dig(1) : a \in {0, 5}}
+\* two range-specs: the second starts around the end (and the start) of the first
+RangePairs == UNION {UNION {UNION {{Dig(a) \o T_dash \o Dig(b) \o T_comma \o Dig(c) \o T_dash \o Dig(d) : d \in Near(c)} :
+                                       c \in Near(a) \cup Near(b) \cup {b + 7}} : b \in {a, a + 3}} : a \in {0, 5}}
+          \cup {s \o T_comma \o t : s \in {T_dash \o Dig(1), Dig(5) \o T_dash}, t \in {Dig(0) \o T_dash \o Dig(3), T_dash \o Dig(0)}}
+RangeTexts == {T_bytesEq \o s : s \in RangeSpecs \cup RangePairs}
+         \cup {T_bytesEq \o r \o T_dash : r \in LongRuns} \cup {T_bytesEq \o Dig(0) \o T_dash \o r : r \in LongRuns}
+         \cup {T_bytesEq \o T_dash \o r : r \in LongRuns}
+
+\* Content-Range: first-last/length with last around first and length around last, unknown parts
+ContentRangeTexts ==
+       UNION {UNION {{T_bytesSp \o Dig(a) \o T_dash \o Dig(b) \o T_slash \o l :
+                        l \in {Dig(n) : n \in Near(b) \cup {b + 2, 10}} \cup {T_star}} : b \in Near(a)} : a \in RangeBases}
+  \cup {T_bytesSp \o T_star \o T_slash \o l : l \in {Dig(0), Dig(1), T_star}}
+  \cup {T_bytesSp \o Dig(0) \o T_dash \o Dig(0) \o T_slash \o Dig(0)}
+  \cup {T_bytesSp \o r \o T_dash \o r \o T_slash \o r : r \in LongRuns}
+  \cup {T_bytesSp \o Dig(0) \o T_dash \o r \o T_slash \o T_star : r \in LongRuns}
+
+\* instants: the first and the last second of boundary years, and out-of-range day / time fields, each with every zone
+DateTexts ==
+       {T_wkday \o e[1] \o T_sp \o y \o T_sp \o e[2] \o z : e \in DateEdges, y \in DateYears, z \in DateZones}
+  \cup {e[1] \o T_sp \o y \o T_sp \o e[2] \o z : e \in DateEdges, y \in {<<48, 48, 48, 49>>, <<57, 57, 57, 57>>}, z \in DateZones}
+  \cup {T_wkday \o d \o T_sp \o <<50, 48, 50, 52>> \o T_sp \o <<48, 48, 58, 48, 48, 58, 48, 48>> \o z : d \in DateOddDays, z \in DateZones}
+  \cup {T_wkday \o <<48, 49, 32, 74, 97, 110>> \o T_sp \o y \o T_sp \o t \o z : t \in DateOddTimes, y \in {<<48, 48, 48, 49>>, <<57, 57, 57, 57>>}, z \in DateZones}
+
+GramTexts(fam) == CASE fam = "range" -> RangeTexts \cup ContentRangeTexts
+                    [] fam = "date" -> DateTexts
+                    [] OTHER -> {}
+
 \* which pure functions and which environ slots of a Request a family is fed to
 FamFns(fam) ==
   CASE fam = "options" -> <<"parse_options_header", "parse_list_header", "parse_dict_header", "parse_set_header",
@@ -289,6 +415,8 @@ FamFns(fam) ==
     [] fam = "auth"    -> <<"Authorization.from_header", "WWWAuthenticate.from_header", "parse_dict_header">>
     [] fam = "cookie"  -> <<"parse_cookie", "parse_cookie[environ]">>
     [] fam = "url"     -> <<"parse_list_header">>
+    [] fam = "range"   -> <<"parse_range_header", "parse_content_range_header", "parse_if_range_header", "parse_age">>
+    [] fam = "date"    -> <<"parse_date", "parse_if_range_header">>
 FamSlots(fam) ==
   CASE fam = "options" -> <<"ACCEPT", "ACCEPT_CHARSET", "ACCEPT_ENCODING", "ACCEPT_LANGUAGE", "CACHE_CONTROL", "PRAGMA",
                             "ACR_HEADERS", "ALL_HEADERS">>
@@ -299,6 +427,8 @@ FamSlots(fam) ==
     [] fam = "cookie"  -> <<"COOKIE">>
     [] fam = "url"     -> <<"HOST", "QUERY_STRING", "PATH_INFO", "X_FORWARDED_FOR", "REFERER", "ORIGIN", "USER_AGENT",
                             "ACR_METHOD", "CONTENT_ENCODING", "CONTENT_MD5", "ALL_HEADERS">>
+    [] fam = "range"   -> <<"RANGE", "IF_RANGE", "CONTENT_LENGTH", "MAX_FORWARDS">>
+    [] fam = "date"    -> <<"IF_MODIFIED_SINCE", "IF_UNMODIFIED_SINCE", "IF_RANGE", "DATE">>
 Slots == {"HOST", "COOKIE", "AUTHORIZATION", "ACCEPT", "ACCEPT_CHARSET", "ACCEPT_ENCODING", "ACCEPT_LANGUAGE", "CACHE_CONTROL",
           "PRAGMA", "IF_MATCH", "IF_NONE_MATCH", "IF_MODIFIED_SINCE", "IF_UNMODIFIED_SINCE", "IF_RANGE", "RANGE", "DATE",
           "MAX_FORWARDS", "X_FORWARDED_FOR", "USER_AGENT", "REFERER", "ORIGIN", "CONTENT_ENCODING", "CONTENT_MD5", "ACR_HEADERS",
